@@ -123,12 +123,11 @@ impl<'a> TryFrom<ChannelSpec<'a>> for (isize, isize) {
 
     fn try_from(value: ChannelSpec) -> Result<Self, Self::Error> {
         if value.dimension() == 2 {
-            let i1: isize = value
-                .into_iter()
+            let mut dimensions = value.into_iter();
+            let i1: isize = dimensions
                 .next()
                 .unwrap_or(Err(ErrorCode::ExpressionError))?;
-            let i2: isize = value
-                .into_iter()
+            let i2: isize = dimensions
                 .next()
                 .unwrap_or(Err(ErrorCode::ExpressionError))?;
             Ok((i1, i2))
@@ -157,16 +156,14 @@ impl<'a> TryFrom<ChannelSpec<'a>> for (isize, isize, isize) {
 
     fn try_from(value: ChannelSpec) -> Result<Self, Self::Error> {
         if value.dimension() == 3 {
-            let i1: isize = value
-                .into_iter()
+            let mut dimensions = value.into_iter();
+            let i1: isize = dimensions
                 .next()
                 .unwrap_or(Err(ErrorCode::ExpressionError))?;
-            let i2: isize = value
-                .into_iter()
+            let i2: isize = dimensions
                 .next()
                 .unwrap_or(Err(ErrorCode::ExpressionError))?;
-            let i3: isize = value
-                .into_iter()
+            let i3: isize = dimensions
                 .next()
                 .unwrap_or(Err(ErrorCode::ExpressionError))?;
             Ok((i1, i2, i3))
